@@ -40,6 +40,7 @@ def c14(tier, rep):
     E.menu(rep, M.ERRORS, 3, mode="stop", max_errs=1, invariants=["Inv_C14"], label="errors-stop")
     E.menu(rep, CAP_MENU, 12 if tier == "quick" else 13, max_errs=11, invariants=["Inv_C14", "Inv_C01"], label="error-limit")
     E.traces(rep, E.record_all(std_sources(tier, 300, 3000), modes=("collect", "stop")), "corpus+gen+noisy")
+    E.reuse_pass(rep, E.src_limits() + E.src_corpus() + E.src_limits() + E.src_noisy(100, SEED), "reuse")
 
 
 def fuzz_sources(n, seed):
@@ -68,6 +69,11 @@ def c01(tier, rep):
     E.menu(rep, M.BASE, 3 if q else 4, invariants=["Inv_C01"], label="base")
     E.menu(rep, M.BASE, 3, mode="stop", max_errs=1, invariants=["Inv_C01"], label="base-stop")
     E.menu(rep, CAP_MENU, 12, max_errs=11, invariants=["Inv_C01"], label="error-limit")
+    import l0 as L
+    res = L.termination(3 if q else 4)
+    rep.add_tlc(f"MC_L0[liveness,N={3 if q else 4}]", res, "PROPERTY Termination (<> done) under weak fairness, all 14 kinds, no state constraint")
+    if res.errors:
+        rep.violation({"kind": "spec-liveness"}, {"engine": "MC_L0", "what": "Termination violated on the small-step parser specification", "tlc_tail": res.out[-3000:]})
     srcs = std_sources(tier, 200, 3000) + fuzz_sources(250 if q else 6000, SEED)
     E.traces(rep, E.record_all(srcs, modes=("collect", "stop")), "corpus+gen+noisy+fuzz")
     # the stream turns any source into the four envelope kinds only
